@@ -40,6 +40,14 @@
 (*   ud_sent   the UD value the device was handed ("" = none)              *)
 (*   att_file  "yes" iff the attestation command left an output file       *)
 (*   contacted "yes" iff the attestation command opened the device link    *)
+(*   hist      the history: "single", or two attestation runs (see         *)
+(*             AttestFlow); everything above describes the SECOND run and  *)
+(*             the file it wrote; prev_ok: the first run succeeded;        *)
+(*             dev_prev: the device's values in the first run;             *)
+(*             earlier_before / earlier_after: the files of the first run  *)
+(*             (and of onboarding) that the second run was not to write    *)
+(*             to, before and after it; verify_prev, printed_prev: the     *)
+(*             verify command on the first run's file, after the second    *)
 (*   sigsite, sigclass   which signature(s) of the genuine device were     *)
 (*             ground to which "<r class>/<s class>" shape ("none", "any") *)
 (*   g_err, v_err   "none" | "AdminError" | "raw": how the attestation /   *)
@@ -102,6 +110,7 @@ CompClasses == {"h32", "l32", "b31h", "b31l", "b30", "any"}
 ShapeClasses == {a \o "/" \o b : a \in CompClasses, b \in CompClasses \ {"b30"}}
 WellFormedP(o) ==
     /\ o.plat \in {"ledger", "sgx"}
+    /\ o.hist \in {"single", "reattest", "inplace", "sameout", "reuse0", "two"}
     /\ o.sigclass \in (ShapeClasses \cup {"any"})
     /\ ((o.sigsite = "none") <=> (o.sigclass = "any"))
     /\ o.gather \in {"ok", "fail"} /\ o.verify \in {"ok", "fail", "na"}
@@ -155,14 +164,28 @@ NodeBadStrictP(o) == (o.udsrc = "node" /\ o.node \notin ProperNode /\ o.g_onboar
 \* root of trust by URL: one GET of that URL per verification, none otherwise; a verification that
 \* fails does so with an AdminError, never with another exception class
 VerifyRuns(o) == (IF o.verify = "na" THEN 0 ELSE 1) + (IF o.verify2 = "na" THEN 0 ELSE 1)
+                 + (IF o.verify_prev = "na" THEN 0 ELSE 1)
 RootFetchP(o) ==
     LET gs == Gets(o) IN
     /\ Len(gs) = (IF o.rootvia = "url" THEN VerifyRuns(o) ELSE 0)
     /\ \A i \in 1..Len(gs) : gs[i].url = o.root_url
     /\ (o.rootvia = "url" /\ o.verify = "fail") => o.v_err = "AdminError"
 
+(***************************************************************************)
+(* Histories: state across runs.                                           *)
+(***************************************************************************)
+HistKinds == {"single", "reattest", "inplace", "sameout", "reuse0", "two"}
+\* the first run of a history is a genuine one and must have succeeded
+FirstRunGathersP(o) == (o.hist # "single" /\ o.g_onboard # "fail") => o.prev_ok = "ok"
+\* earlier files stay as they were
+EarlierKeptP(o) == o.earlier_after = o.earlier_before
+\* and the first run's own file still verifies with the values of THAT run
+PrevKeptP(o) == (o.hist \in {"reattest", "reuse0", "two"} /\ o.gather = "ok" /\ o.alt # "root") =>
+                   (o.verify_prev = "ok" /\ Printed(o.printed_prev) = Expect(o.dev_prev))
+
 Clauses(o) == <<
     <<"WellFormed", WellFormedP(o)>>,
+    <<"FirstRunGathers", FirstRunGathersP(o)>>,
     <<"NodeBad", NodeBadP(o)>>,
     <<"NodeProtocol", NodeProtocolP(o)>>,
     <<"UdDelivered", UdDeliveredP(o)>>,
@@ -171,5 +194,7 @@ Clauses(o) == <<
     <<"GenuineVerifies", GenuineVerifiesP(o)>>,
     <<"AlteredFails", AlteredFailsP(o)>>,
     <<"Lossless", LosslessP(o)>>,
-    <<"ReloadedSameVerdict", ReloadedSameVerdictP(o)>> >>
+    <<"ReloadedSameVerdict", ReloadedSameVerdictP(o)>>,
+    <<"EarlierKept", EarlierKeptP(o)>>,
+    <<"PrevKept", PrevKeptP(o)>> >>
 =============================================================================
